@@ -167,7 +167,7 @@ func run(ctx *core.Ctx) error {
 		if why := checkTable(gc, ob); why != "" {
 			suspects[len(recs)] = why
 		}
-		if gc.Bad == "" && gc.Root != "mem" && ob.Rec.Accepted && !reflect.DeepEqual(normShape(gc.Shape), normShape(ob.Shape)) {
+		if gc.Bad == "" && gc.Root != "mem" && ob.Spec.API != "Foreign" && ob.Rec.Accepted && !reflect.DeepEqual(normShape(gc.Shape), normShape(ob.Shape)) {
 			drift++
 			ctx.Logf("note: %s: the tree's shape differs from the model's prediction (not demanded by the property)", ob.Spec.id())
 		}
@@ -384,6 +384,38 @@ func concretisations(ctx *core.Ctx, gi int, gc genCase) []spec {
 	for i := range out {
 		out[i].Ctx = writeCtxs[(i+rot)%4]
 	}
+	// foreign trees for the same map: rendered by the harness, read by the real readers
+	if gc.Bad == "" {
+		fans := []int{2, 3, 5, 7}
+		for v, variant := range foreignVariants {
+			big := gc.N > 1000
+			if big && v != rot%4 && (!ctx.Thorough() || v != (rot+1)%4) {
+				continue // big maps: one variant in the quick tier, two in the thorough tier
+			}
+			fan := fans[(rot+v)%4]
+			if big {
+				fan = 16
+			}
+			for _, num := range []bool{false, true} {
+				if big && !ctx.Thorough() && num != (rot%2 == 0) {
+					continue
+				}
+				s := spec{Num: num, API: "Foreign", Foreign: variant, Fan: fan, N: gc.N, Seed: ctx.Seed, Per: 2}
+				if num {
+					s.Style = numStyles[(rot+v+1)%4]
+				} else {
+					s.Style = nameStyles[(rot+v)%4]
+				}
+				if big {
+					s.Per = 1
+					if !ctx.Thorough() {
+						s.Probe = "edges"
+					}
+				}
+				out = append(out, s)
+			}
+		}
+	}
 	return out
 }
 
@@ -590,6 +622,13 @@ func whyRejected(ctx *core.Ctx, rec record) ([]string, error) {
 // report turns a rejected record into a violation (or an infrastructure error
 // if the rejection is about the harness itself).
 func report(ctx *core.Ctx, ob *observation, parts []string) error {
+	if ob.Spec.API == "Foreign" {
+		// the tree itself is the harness's: a complaint about it is no verdict on go-pdf
+		switch parts[0] {
+		case "Valid", "TreeContent", "TreeLookup", "EmptyNoTree", "RejectsExactly":
+			return core.Infra("%s: the harness's foreign tree is not what it should be: %v", ob.Rec.ID, parts)
+		}
+	}
 	if parts[0] == "HarnessOrder" {
 		return core.Infra("%s: the harness's key order disagrees with RefKeyLess", ob.Rec.ID)
 	}
@@ -616,6 +655,9 @@ func report(ctx *core.Ctx, ob *observation, parts []string) error {
 		if s.Mem.Step == 0 {
 			class = "first-use"
 		}
+	}
+	if s.Foreign != "" {
+		class = "foreign-" + s.Foreign
 	}
 	if strings.Contains(s.Ctx, "stream") {
 		class += "/stream-open"
